@@ -165,6 +165,19 @@ class LfAdapter(Adapter):
             except RuntimeError:
                 pass
             ctx.cm, ctx.susp = None, False
+        elif act == "CalcNudge":
+            lc = lf.make_calculator()
+            x0 = list(lc.get_value_array())
+            names = [op.name for op in lc.opt_pars]
+            try:
+                x = [float(op.transform_to_optimiser(op.transform_from_optimiser(v) * (1 + 4e-6))) if nm == "kappa" else v for v, nm, op in zip(x0, names, lc.opt_pars)]
+                nudged = lc.testoptparvector(x)
+                lf.update_from_calculator(lc)
+                if not close(nudged, lf.lnL):
+                    ctx.calc_anom = "function-does-not-report-the-calculators-value-after-a-tiny-step"
+                lc.testoptparvector(x0)
+            finally:
+                lf.update_from_calculator(lc)
         elif act == "CalcRound":
             v1, v2 = args
             lc = lf.make_calculator()
